@@ -190,11 +190,27 @@ def _chain(s):
 def concatenation(ctx):
     ia = ctx.fn("Path.__iadd__", "R17.4")
     other = ia.args.args[1].arg
+    def identity_answer(ans):
+        def extra(t):
+            if isinstance(t, ast.Call) and isinstance(t.func, ast.Attribute) and t.func.attr == "is_identity" and not t.args:
+                return ans
+            return None
+        return extra
+
+    # a right operand that carries a transform: what is appended must be what it draws (as other.d() is for a shape)
+    pth = follow(ctx, "R17.4", ia, {other: "Path"}, extra=identity_answer(False))
+    applied = any(isinstance(st, ast.Assign) and any(isinstance(t, ast.Name) and t.id == other for t in st.targets) and isinstance(st.value, ast.Call)
+                  and (call_name(st.value) == "abs" or (isinstance(st.value.func, ast.Attribute) and st.value.func.attr in ("reify",))) for st in pth.stmts) \
+        or bool(calls_in(pth.stmts, lambda c: isinstance(c.func, ast.Attribute) and c.func.attr in ("d", "segments") and attr_chain(c.func.value) == [other])) \
+        or any(isinstance(b, ast.BinOp) and isinstance(b.op, ast.Mult) and ast.unparse(b.right).endswith(".transform") for st in pth.stmts for b in ast.walk(st))
+    ctx.ob("R17.4", "Path.__iadd__[Path carrying a transform]", applied, "; ".join(ast.unparse(x)[:60] for x in pth.stmts), ia.lineno,
+           "the right operand's raw segments are copied and its transform is dropped: Path('M0,0 L1,1') + Path('M0,0 L10,0', transform='translate(5,5)') draws the second part at the origin")
     for tname in ("Path", "Subpath"):
-        pth = follow(ctx, "R17.4", ia, {other: tname})
+        pth = follow(ctx, "R17.4", ia, {other: tname}, extra=identity_answer(True))
         ext = calls_in(pth.stmts, lambda c: attr_chain(c.func) == ["self", "extend"] and len(c.args) == 1)
+        from_other = Taint(pth.stmts, lambda n: isinstance(n, ast.Name) and n.id == other, through_containers=True)
         copied = bool(ext) and all(any((isinstance(n, ast.Name) and n.id == "copy") or (isinstance(n, ast.Attribute) and n.attr == "__copy__") for n in ast.walk(c.args[0]))
-                                   and other in {n.id for n in ast.walk(c.args[0]) if isinstance(n, ast.Name)} for c in ext)
+                                   and from_other.derived(c.args[0]) for c in ext)
         raw = calls_in(pth.stmts, lambda c: isinstance(c.func, ast.Attribute) and c.func.attr in ("append", "insert") and attr_chain(c.func.value) in (["self"], ["self", "_segments"]))
         ctx.ob("R17.4", "Path.__iadd__[%s]" % tname, copied and not raw and pth.exit == "return", "; ".join(ast.unparse(x)[:60] for x in pth.stmts), ia.lineno,
                "concatenation must copy the right operand's segments and link them through extend")
